@@ -7,6 +7,7 @@ import (
 	"fmt"
 	"strconv"
 	"strings"
+	"sync/atomic"
 	"time"
 
 	"github.com/NethermindEth/juno/blockchain/networks"
@@ -112,6 +113,10 @@ type btPlan struct {
 	CancelAtGet int64 `json:"cancelAtGet"` // cancel at this database read (0 = never)
 }
 
+// hungOnce: a migration run did not return; its goroutines may still spin, so no further runs
+// are started (every later case reports the hang).
+var hungOnce atomic.Bool
+
 type btOutcome struct {
 	ret     string             // done | rerun | failed | hang | panic
 	errText string             //
@@ -161,7 +166,12 @@ func runBlockTx(d *memory.Database, p btPlan, capture bool) btOutcome {
 	}
 	var state []byte
 	var err error
-	finished := lib.WithDeadline(60*time.Second, func() {
+	if hungOnce.Load() {
+		out.ret = "hang"
+		out.errText = "skipped: an earlier run of the migration did not return"
+		return out
+	}
+	finished := lib.WithDeadline(15*time.Second, func() {
 		e, panicked, _ := lib.Try(func() error {
 			var e2 error
 			state, e2 = blocktransactions.Migrator{}.Migrate(ctx, s, &networks.Sepolia, log.NewNopZapLogger())
@@ -175,6 +185,8 @@ func runBlockTx(d *memory.Database, p btPlan, capture bool) btOutcome {
 	switch {
 	case !finished:
 		out.ret = "hang"
+		out.errText = "Migrate did not return within 15 s"
+		hungOnce.Store(true)
 		return out
 	case out.ret == "panic":
 		out.errText = err.Error()
@@ -316,16 +328,19 @@ func checkFinal(res *lib.Result, c, imageSpec chainSpec, final *memory.Database)
 		ok = false
 		switch {
 		case got.Err == "notfound" && len(exp.Txs) == 0:
+			res.Hit("oracle:blocktx-empty-block-unreadable-after-migration")
 			res.Violate(lib.Violation{Sig: "blocktx-empty-block-unreadable-after-migration",
 				What: fmt.Sprintf("block %d has no transactions; the previous layout read it as an empty list, after the "+
 					"completed migration core.GetTransactionsByBlockNumber/GetBlockByNumber return key not found", b),
 				Replay: btReplay{imageSpec, "build spec, run blocktransactions.Migrator.Migrate once, read block", b}})
 		case got.Err == "ok" && len(got.Txs) == 0 && len(got.Rcs) == 0 && len(exp.Txs) > 0 && imageSpec.Layout[b] == 'n':
+			res.Hit("oracle:blocktx-resume-overwrites-migrated-block")
 			res.Violate(lib.Violation{Sig: "blocktx-resume-overwrites-migrated-block",
 				What: fmt.Sprintf("block %d (%d transactions) was already migrated in the image the run resumed from; "+
 					"after the run it reads as an empty block: transactions and receipts are lost", b, len(exp.Txs)),
 				Replay: btReplay{imageSpec, "build spec (a crash image of an earlier run), run Migrate once, read block", b}})
 		default:
+			res.Hit("oracle:blocktx-content-differs-after-migration")
 			res.Violate(lib.Violation{Sig: "blocktx-content-differs-after-migration",
 				What: fmt.Sprintf("block %d: expected %d txs / %d receipts (ok), got %s %d / %d %s", b, len(exp.Txs),
 					len(exp.Rcs), got.Err, len(got.Txs), len(got.Rcs), got.Note),
